@@ -62,5 +62,23 @@ def np_ndim(x):
     return n
 
 
+def _gcxs_axes_nodes(j, acc):
+    if isinstance(j, list) and j and isinstance(j[0], str):
+        if j[0] == "gcxs" and j[2] is not None:
+            acc.append(j[2])
+        for c in j[1:]:
+            if isinstance(c, list):
+                _gcxs_axes_nodes(c, acc)
+                for cc in c:
+                    if isinstance(cc, list):
+                        _gcxs_axes_nodes(cc, acc)
+    return acc
+
+
 def _classify_c06(name, case, msg):
+    # check_compressed_axes compares list(set(axes)) with axes: set iteration order is not sorted once an axis >= 8 is present
+    if name.startswith("expr") and "axes must be sorted without repeats" in msg:
+        axes = _gcxs_axes_nodes(case.get("json"), [])
+        if any(c and max(c) >= 8 and all(c[i] < c[i + 1] for i in range(len(c) - 1)) for c in axes):
+            return "F-gcxs-axes-set-order"
     return None
